@@ -14,6 +14,8 @@ rows = []
 for d in sorted(os.listdir(f"{V}/seeded")):
     meta = json.load(open(f"{V}/seeded/{d}/meta.json"))
     prop, verdict, classes = res.get(d, (meta["property"], "not run", ""))
+    if meta.get("obsolete"):
+        verdict = "obsolete"
     classes = classes.split(" REPLAY")[0]
     cls = [re.sub(r" count=\d+", "", c) for c in classes.split(";") if c.strip()][:2]
     summ = meta["summary"].replace("|", "/")
@@ -26,7 +28,7 @@ for d in sorted(os.listdir(f"{V}/seeded")):
         conf = "suite+demo ok" if ok and c["demo_exit_on_original"] == "0" else "suite ok" if ok else "NOT CONFIRMED"
     short = d.split("-revert-")[0] if d.startswith("R") else d
     rows.append("| " + " | ".join([short, prop, verdict, conf, summ[:260], meta.get("needs", "").replace("|", "/")[:220],
-                                  "; ".join(f"`{c}`" for c in cls), notes.get(d, "detected")]) + " |")
+                                  "; ".join(f"`{c}`" for c in cls), (meta.get("obsolete") or notes.get(d, "detected"))]) + " |")
 header = ("| id | check | verdict | confirmed | change | needs to manifest | example violation classes reported | first attempt / what it took |\n"
           "|---|---|---|---|---|---|---|---|\n")
 table = header + "\n".join(rows) + "\n"
@@ -39,5 +41,5 @@ else:
     old_end = s.index("\n## 11. Corrections made")
     s = s[:old_start] + b + table + e + s[old_end:]
 open(f"{V}/DESIGN.md", "w").write(s)
-n = len(rows); det = sum(1 for r in rows if "| DETECTED |" in r)
-print(f"{n} seeded changes, {det} detected")
+n = len(rows); det = sum(1 for r in rows if "| DETECTED |" in r); obs = sum(1 for r in rows if "| obsolete |" in r)
+print(f"{n} seeded changes, {det} detected, {obs} obsolete")
